@@ -10,6 +10,53 @@ use crate::sexp::Sexp;
 use serde_json::json;
 use std::path::Path;
 
+use tree_sitter_graph::ast::Statement;
+use tree_sitter_graph::{Context, ExecutionError, Location};
+
+fn stmt_location(s: &Statement) -> Location {
+    match s {
+        Statement::DeclareImmutable(x) => x.location,
+        Statement::DeclareMutable(x) => x.location,
+        Statement::Assign(x) => x.location,
+        Statement::CreateGraphNode(x) => x.location,
+        Statement::AddGraphNodeAttribute(x) => x.location,
+        Statement::CreateEdge(x) => x.location,
+        Statement::AddEdgeAttribute(x) => x.location,
+        Statement::Scan(x) => x.location,
+        Statement::Print(x) => x.location,
+        Statement::If(x) => x.location,
+        Statement::ForIn(x) => x.location,
+    }
+}
+
+/// the text (`Display`) of every statement of the file that starts at `loc`
+fn stmt_texts_at(stmts: &[Statement], loc: &Location, out: &mut Vec<String>) {
+    for s in stmts {
+        let l = stmt_location(s);
+        if l.row == loc.row && l.column == loc.column {
+            out.push(format!("{}", s));
+        }
+        match s {
+            Statement::Scan(x) => x.arms.iter().for_each(|a| stmt_texts_at(&a.statements, loc, out)),
+            Statement::If(x) => x.arms.iter().for_each(|a| stmt_texts_at(&a.statements, loc, out)),
+            Statement::ForIn(x) => stmt_texts_at(&x.statements, loc, out),
+            _ => {}
+        }
+    }
+}
+
+/// every statement context of an error, outermost first
+fn statement_contexts(e: &ExecutionError, out: &mut Vec<(String, Location)>) {
+    if let ExecutionError::InContext(ctx, cause) = e {
+        if let Context::Statement(v) = ctx {
+            for c in v {
+                out.push((c.statement.clone(), c.statement_location));
+            }
+        }
+        statement_contexts(cause, out);
+    }
+}
+
 fn first_stmt_ctx(o: &Sexp) -> Option<Vec<Sexp>> {
     // (err (in-stmt (ctx...) cause))
     let e = &o.as_list()?[1];
@@ -75,12 +122,28 @@ pub fn run(rep: &mut Report, tier: &str, seed: u64) {
                 let r = std::panic::catch_unwind(std::panic::AssertUnwindSafe(|| {
                     match case.loaded.file.execute(&case.source.tree, &case.source.src, &config, &tree_sitter_graph::NoCancellation) {
                         Ok(_) => None,
-                        Err(e) => Some((format!("{}", e), format!("{}", e.display_pretty(Path::new("src.py"), &case.source.src, Path::new("rules.tsg"), case.tsg)))),
+                        Err(e) => {
+                            let mut ctxs = Vec::new();
+                            statement_contexts(&e, &mut ctxs);
+                            Some((format!("{}", e), format!("{}", e.display_pretty(Path::new("src.py"), &case.source.src, Path::new("rules.tsg"), case.tsg)), ctxs))
+                        }
                     }
                 }));
                 match r {
-                    Ok(Some((_plain, pretty))) => {
+                    Ok(Some((_plain, pretty, ctxs))) => {
                         rep.count("pretty-rendered");
+                        // the statement named by a context is the statement written at the cited location of THIS file
+                        for (text, loc) in &ctxs {
+                            let mut at = Vec::new();
+                            for st in &case.loaded.file.stanzas {
+                                stmt_texts_at(&st.statements, loc, &mut at);
+                            }
+                            rep.count("statement-texts-checked");
+                            if !at.contains(text) {
+                                rep.fail("direct", "C20 the statement text in an error context is not the statement at the cited location", true,
+                                    json!({"tsg": case.tsg, "source": case.source.src, "lazy": lazy, "context_statement": text, "location": format!("{}", loc), "statements_there": at}));
+                            }
+                        }
                         // errors raised while executing a stanza carry a context and must cite the DSL and source lines
                         if _plain.starts_with("Error executing") && !(pretty.contains("rules.tsg:") && pretty.contains("src.py:")) {
                             rep.fail("direct", "C20 pretty rendering does not cite the DSL file", true, json!({"tsg": case.tsg, "source": case.source.src, "pretty": pretty}));
